@@ -16,13 +16,14 @@ import (
 	"strconv"
 	"strings"
 	"sync"
-	"time"
 	"unicode/utf8"
 
 	"verifharness/internal/vh"
 )
 
-const quickN = 120000
+// quickN: about 14 CPU-seconds, i.e. 1-2 s wall on 16 idle cores and still under 10 s
+// when the machine is shared three ways.
+const quickN = 60000
 
 type caseOut struct {
 	malformed bool
@@ -160,6 +161,61 @@ func ddmin(data []byte, test func([]byte) bool) []byte {
 	return data
 }
 
+// chunks splits an input into tokens for the first, coarse ddmin pass: markup at tag
+// boundaries, path data before every command letter.
+func chunks(s string, path bool) []string {
+	var out []string
+	start := 0
+	for i := 0; i < len(s); i++ {
+		c := s[i]
+		cut := false
+		if path {
+			cut = i > start && (c >= 'A' && c <= 'Z' || c >= 'a' && c <= 'z') && c != 'e' && c != 'E'
+		} else {
+			cut = i > start && (c == '<' || s[i-1] == '>')
+		}
+		if cut {
+			out = append(out, s[start:i])
+			start = i
+		}
+	}
+	return append(out, s[start:])
+}
+
+func ddminChunks(cs []string, test func([]byte) bool) []string {
+	n := 2
+	join := func(x []string) []byte { return []byte(strings.Join(x, "")) }
+	for len(cs) >= 2 {
+		chunk := (len(cs) + n - 1) / n
+		reduced := false
+		for i := 0; i < len(cs); i += chunk {
+			j := i + chunk
+			if j > len(cs) {
+				j = len(cs)
+			}
+			cand := append(append([]string{}, cs[:i]...), cs[j:]...)
+			if test(join(cand)) {
+				cs = cand
+				if n > 2 {
+					n--
+				}
+				reduced = true
+				break
+			}
+		}
+		if !reduced {
+			if n >= len(cs) {
+				break
+			}
+			n *= 2
+			if n > len(cs) {
+				n = len(cs)
+			}
+		}
+	}
+	return cs
+}
+
 func shrink(c caseOut) caseOut {
 	if len(c.input) > 20000 {
 		return c
@@ -172,7 +228,8 @@ func shrink(c caseOut) caseOut {
 		v := eval(string(b), c.o)
 		return v.judged && v.sig == sig
 	}
-	small := ddmin([]byte(c.input), test)
+	coarse := strings.Join(ddminChunks(chunks(c.input, c.o.mode == "path"), test), "")
+	small := ddmin([]byte(coarse), test)
 	small = ddmin(small, test)
 	s := c
 	s.input = string(small)
@@ -291,11 +348,7 @@ func main() {
 		go func() {
 			defer wg.Done()
 			for i := range next {
-				t0 := time.Now()
 				outs[i] = runCase(seeds[i], *known)
-				if d := time.Since(t0); d > 200*time.Millisecond {
-					fmt.Fprintf(os.Stderr, "svgoracle: slow case %d: %v mode=%s size=%d\n", i, d, outs[i].o.mode, len(outs[i].input))
-				}
 				if outs[i].v.sig == "" {
 					outs[i].v.out = ""
 					if i >= 4000 {
